@@ -2,7 +2,7 @@
 from engine.facts import AnalysisBroken, atomic_op, atomic_ops, is_full_fence, has_acquire, has_release, SEQ_CST, RELAXED
 from engine.rules import (calls, calls_named, atomics_on, every_path_passes, last_member, oname, is_call_to, Defs,
                           resolve_cond_source, edges_where, dominated_by_edges, lockset, member_accesses, full_fence_pred,
-                          access_kind, root_of, product_walk_from, bool_vars_tracker)
+                          access_kind, root_of, product_walk_from, bool_vars_tracker, assignments)
 from rules.common import TBB_SRC
 
 UNITS = ['src/tbb/arena.cpp', 'src/tbb/task.cpp', 'src/tbb/task_dispatcher.cpp', 'src/tbb/concurrent_bounded_queue.cpp',
@@ -33,6 +33,7 @@ EXPLANATION += ' Added in the third session (round-3 seeds and the findings they
 EXPLANATION += ' Added in the fourth round of seeded changes: ' + 'D7 also: with a worker soft limit of 0 the grant of the mandatory worker in market::update_allotment does not depend (backward slice) on a per-priority-level quantity.'
 EXPLANATION += ' Added later in the fourth round: ' + 'D2 also: every condition that can end a wait loop through commit_wait is evaluated again between prepare_wait and commit_wait (the exit conditions are identified by the calls they test, looking through local variables).'
 EXPLANATION += ' Added in the fifth round: ' + 'D4 also: rw_mutex::downgrade with no writer pending passes a wake-all notifier (which r1 notifiers wake every matching sleeper is read from their bodies).'
+EXPLANATION += ' Added in the sixth (partial) seeding round: ' + 'D7 also: when the soft limit is set to 0 the serializer proxy keeps one worker whenever mandatory requests are registered - the raise of the limit and the switch of the mode are both dominated by a test of the request COUNT, not of the mode flag.'
 ASSUMPTIONS = ['C++11 memory model; only seq_cst fences / seq_cst RMWs order a store before a later load',
                'futex / OS semaphore below the P/V interface are trusted', 'Linux configuration (__TBB_USE_FUTEX) is analysed']
 ND = ['eventual execution (liveness) itself', 'fairness of the OS semaphore/futex', 'thread_monitor internals below P/V']
@@ -594,6 +595,7 @@ def d7_sleep_list(facts, rep):
                        key_extra=str(node['ln']) + node['n'])
     serializer_request_word(facts, rep)
     market_mandatory_allotment(facts, rep)
+    d7_soft_limit_zero_keeps_registered_mandatory_requests(facts, rep)
     for name in ('enable_mandatory_concurrency', 'disable_mandatory_concurrency'):
         for fn in facts.get(R1 + 'thread_request_serializer_proxy::' + name):
             up = calls_named(fn, ('upgrade_to_writer',))
@@ -1044,3 +1046,50 @@ def rw_downgrade_wakes_all(facts, rep, clause):
                'the readers that fell asleep while the writer held the lock are not all woken by the downgrade (no wake-all notification '
                'on this path: %s); the lock stays held, so they sleep until the holder releases - for ever if the holder waits for them'
                % wit, key_extra='downgrade')
+
+
+def d7_soft_limit_zero_keeps_registered_mandatory_requests(facts, rep, clause='D7'):
+    """"a task submitted with enqueue is eventually executed even if ... the arena momentarily has no workers": an enqueue into an
+    arena without threads registers a mandatory request with the serializer proxy.  Whether that request currently needs the
+    special treatment depends on the soft limit: while workers are allowed nothing is switched on.  When the limit later drops to 0
+    (global_control(max_allowed_parallelism, 1) created AFTER the enqueue) the proxy is the only place that can notice that a
+    registered request now needs its one worker - so on the soft_limit == 0 path it decides by the COUNT of registered requests
+    (my_num_mandatory_requests), switches the mode on and asks for one worker.  A decision by the mode flag alone ignores
+    requests registered while the limit was still positive: the task stays in the arena for as long as the limit lives.
+    Rule: in thread_request_serializer_proxy::set_active_num_workers the raise of the requested limit (an assignment to the
+    parameter) and the store of `true` into my_is_mandatory_concurrency_enabled both happen, each dominated by the edge
+    my_num_mandatory_requests > 0 (a read of the counter, not of the flag)."""
+    n = 0
+    for fn in facts.get(R1 + 'thread_request_serializer_proxy::set_active_num_workers'):
+        ps = set(p['v'] for p in fn.d.get('params', []))
+
+        def counted(a, truth):
+            nd = fn.n(fn.strip(a))
+            if nd.get('k') != 'binop' or nd['op'] not in ('>', '!=', '>=', '<', '==', '<='):
+                return False
+            reads = any(last_member(fn, x) == 'my_num_mandatory_requests' for x in (nd['l'], nd['r'])) or \
+                any((atomic_op(fn, x) or {}).get('kind') == 'load' and last_member(fn, atomic_op(fn, x)['obj']) == 'my_num_mandatory_requests'
+                    for x in fn.subtree(nd['s']) if fn.nodes[x].get('k') == 'call')
+            if not reads:
+                return False
+            lc, rc = fn.cv(nd['l']), fn.cv(nd['r'])
+            op = nd['op']
+            if rc is None and lc is not None:          # constant on the left: mirror
+                op = {'>': '<', '<': '>', '>=': '<=', '<=': '>=', '==': '==', '!=': '!='}[op]
+                rc = lc
+            if rc is None:
+                return False
+            positive_when_true = (op == '>' and rc >= 0) or (op == '>=' and rc >= 1) or (op == '!=' and rc == 0)
+            positive_when_false = (op == '<=' and rc >= 0) or (op == '<' and rc >= 1) or (op == '==' and rc == 0)
+            return (truth and positive_when_true) or ((not truth) and positive_when_false)
+        ce = edges_where(fn, counted)
+        raises = [pos for pos, s, l, r in assignments(fn) if fn.n(fn.strip(l)).get('k') == 'var' and fn.n(fn.strip(l)).get('v') in ps and (fn.cv(r) or 0) >= 1]
+        enables = [pos for pos, s, l, r in assignments(fn) if last_member(fn, l) == 'my_is_mandatory_concurrency_enabled' and fn.cv(r) == 1]
+        ok = bool(ce) and bool(raises) and bool(enables) and all(dominated_by_edges(fn, p, ce)[0] for p in raises + enables)
+        n += 1
+        rep.ob(clause, 'K4', fn, 'a soft limit of 0 keeps one worker whenever mandatory requests are registered (decided by their count)', ok,
+               'the limit is raised to 1 / the mode switched on %s: a request registered while the soft limit was still positive is ignored when the '
+               'limit drops to 0 - the enqueued task is not executed while the limit lives' %
+               ('only under a test of the mode flag' if (raises or enables) else 'nowhere'), key_extra='proxy-soft-limit-zero')
+    if n < 1:
+        raise AnalysisBroken('thread_request_serializer_proxy::set_active_num_workers not found')
